@@ -19,6 +19,13 @@ class Finding:
     function: str = ""
     extra: dict = field(default_factory=dict)
 
+    def __post_init__(self):
+        # inlined statements carry fractional positions (canon._relocate): the report shows the real source line
+        try:
+            self.line = int(self.line)
+        except (TypeError, ValueError):
+            self.line = 0
+
     def ident(self):
         return f"{self.rule}::{self.key}"
 
